@@ -161,6 +161,24 @@ def run(tier, seed):
         for N in Ns:
             D = 2 if (tier == 'thorough' or N == 8) else 1
             units += ex.dev_units(cfg, entropy, N, D, nchunks=8 if N == 8 else 24, kinds=KINDS)
+    # tens of thousands of consecutive small steps forward and then backward (through ReverseBrownian), on the object
+    long_cfgs = [(bmm.cfg_make(size=(1, 1), levy='none', cache_size=45), 25000),
+                 (bmm.cfg_make(size=(1, 1), levy='space-time', cache_size=45), 25000),
+                 (bmm.cfg_make(size=(1, 1), levy='foster', cache_size=45, dt=1 / 25000), 25000),
+                 (bmm.cfg_make(size=(1, 1), levy='none', cache_size=1), 3000),
+                 (bmm.cfg_make(size=(1, 1), levy='none', cache_size=None), 25000),
+                 (bmm.cfg_make(wrapper='tree', size=(1, 1), tol=0.), 5000),
+                 (bmm.cfg_make(wrapper='path', size=(1, 1), cache_size=None), 25000),
+                 (bmm.cfg_make(size=(1, 1), levy='space-time', cache_size=45, t0=-1., t1=1.), 25000)]
+    if tier == 'thorough':
+        long_cfgs += [(bmm.cfg_make(size=(1, 1), levy='space-time', cache_size=45), 60000),
+                      (bmm.cfg_make(size=(1, 1), levy='none', cache_size=0), 3000)]
+    else:
+        # quick: the two cheapest 25000-step sweeps and short versions of the others (each query of a 25000-step
+        # sweep is re-checked against its first answer and metered: ~0.5 ms per query)
+        long_cfgs = [(c, N if i in (0, 4) else min(N, 1500)) for i, (c, N) in enumerate(long_cfgs)]
+    for cfg, N in long_cfgs:
+        units.append(dict(kind='dev', cfg=cfg, entropy=entropy, N=N, devsets=[[]], kinds=KINDS, budget=2_000_000))
     # ladder through sdeint
     ladder_N = [10, 100, 101, 1000, 25000] if tier == 'quick' else [10, 100, 101, 1000, 25000, 60000]
     for kind, N, dtype in itertools.product(['default', 'hinted', 'path', 'tree', 'interval_c0', 'interval_tol'],
@@ -179,7 +197,7 @@ def run(tier, seed):
             for kind in ('default', 'tree', 'hinted', 'interval_tol'):
                 for dtype in ('float32', 'float64'):
                     units.append(dict(kind='sdeint', bm=kind, N=int(round(T / dt)), dtype=dtype, T=T, dt=dt))
-    units.sort(key=lambda u: -(u.get('N', 0) if u['kind'] == 'sdeint' else 100 * u.get('N', 0) * (len(u.get('devsets', [])) > 1)))
+    units.sort(key=lambda u: -(u.get('N', 0) if u['kind'] == 'sdeint' else (u.get('N', 0) if u.get('N', 0) > 1000 else 100 * u.get('N', 0) * (len(u.get('devsets', [])) > 1))))
     ex.selfcheck_determinism(entropy)
     chk.count('determinism_selfcheck_passed')
     chk.count('work_units', len(units))
